@@ -194,8 +194,12 @@ def run_render(ctx):
     db = lib.body("variable::Variable::debug")
     if not (res.anchor(sb is not None, "Variable::string") and res.anchor(ab is not None, "Array::string") and res.anchor(db is not None, "Variable::debug")):
         return res
+    from ..owners import for_crate
+    own = for_crate(lib)
     for name, b in (("Variable::string(Tuple)", sb), ("Array::string", ab)):
-        cs = {c.callee for cb in lib.with_closures(b.id) if cb is not b for c in cb.calls}
+        # the element closures of the function and of helper functions that belong to it alone
+        members = [hb for hb in own.cluster(b.id)]
+        cs = {c.callee for hb in members if "{closure" in hb.id for c in hb.calls}
         key = "render:elements:" + name
         if "variable::Variable::debug" in cs and "variable::Variable::string" not in cs:
             res.ok(key, b.where(), "element closure calls Variable::debug")
